@@ -26,13 +26,16 @@ TRUSTED = [
 
 SCHEMAS = {"Item": {"type": "object", "properties": {"id": {"type": "integer"}, "name": {"type": "string"}}, "required": ["id"]},
            "Meta": {"type": "object", "properties": {"k": {"type": "string"}, "n": {"type": "integer"}}},
-           "Thumb": {"type": "object", "properties": {"w": {"type": "integer"}}, "required": ["w"]}}
+           "Thumb": {"type": "object", "properties": {"w": {"type": "integer"}}, "required": ["w"]},
+           # a schema whose class name contains the text the scanners search for (finding F13c)
+           "AsyncIteratorInfo": {"type": "object", "properties": {"a": {"type": "string"}}}}
 JSON_OBJ = {"200": {"description": "ok", "content": {"application/json": {"schema": {"$ref": "#/components/schemas/Item"}}}}}
 KINDS = ["plain", "params", "manyopt", "sse", "ndjson", "octet", "overload", "overload3", "body",
          "overload_meta", "overload_thumb", "partial_octet", "partial_sse"]
+RARE_KINDS = ["ai_ret", "ai_body"]   # return type / JSON body of schema AsyncIteratorInfo (F13c); only in a dedicated stream
 # overload / overload_meta / overload_thumb: multi-content-type bodies whose application/json schema differs (Item / Meta / Thumb)
 # partial_*: the primary response is a plain 200 JSON object, a SECONDARY response streams (206 octet-stream / 202 SSE)
-BODY_KINDS = ("overload", "overload3", "body", "overload_meta", "overload_thumb")
+BODY_KINDS = ("overload", "overload3", "body", "overload_meta", "overload_thumb", "ai_body")
 
 
 def qp(name: str, req: bool = False, t: str = "string", where: str = "query") -> dict:
@@ -77,6 +80,11 @@ def op_node(it: dict, path: str) -> dict:
         if k == "overload3":
             content["application/x-www-form-urlencoded"] = {"schema": {"type": "object", "properties": {"a": {"type": "string"}}}}
         n["requestBody"] = {"required": True, "content": content}
+        resp = JSON_OBJ
+    elif k == "ai_ret":
+        resp = {"200": {"description": "ok", "content": {"application/json": {"schema": {"$ref": "#/components/schemas/AsyncIteratorInfo"}}}}}
+    elif k == "ai_body":
+        n["requestBody"] = {"required": True, "content": {"application/json": {"schema": {"$ref": "#/components/schemas/AsyncIteratorInfo"}}}}
         resp = JSON_OBJ
     elif k == "body":
         n["requestBody"] = {"required": True, "content": {"application/json": {"schema": {"$ref": "#/components/schemas/Item"}}}}
@@ -395,6 +403,24 @@ def run_pipeline(inputs: list[dict], chk: Check | None, texts: list[tuple[str, s
     return out
 
 
+KIND_SCHEMAS = {"params": ["Item"], "manyopt": ["Item"], "ndjson": ["Item"], "overload": ["Item"], "overload3": ["Item"],
+                "body": ["Item"], "overload_meta": ["Meta", "Item"], "overload_thumb": ["Thumb", "Item"], "partial_octet": ["Item"],
+                "partial_sse": ["Item"], "ai_ret": ["AsyncIteratorInfo"], "ai_body": ["AsyncIteratorInfo", "Item"]}
+
+
+def schema_class_names(case: dict) -> list[str]:
+    """class names (real sanitize_class_name) of the component schemas the case's operations refer to"""
+    from pyopenapi_gen.core.utils import NameSanitizer as NS
+    names: list[str] = []
+    for p in case["paths"]:
+        for it in p["items"]:
+            for sname in KIND_SCHEMAS.get(it.get("kind", "plain"), []):
+                cn = NS.sanitize_class_name(sname)
+                if cn not in names:
+                    names.append(cn)
+    return names
+
+
 def c_gcase(c: dict) -> str:
     o = c["obs"]
     if o["gen"] == "ERR" or o["drive"] is None:
@@ -404,7 +430,8 @@ def c_gcase(c: dict) -> str:
         f = lambda v: "None" if v is None else "(Some " + clist(cstr(x) for x in v) + ")"
         ob = f"(GGen {files} {f(o['drive']['mock_props'])} {f(o['drive']['client_props'])})"
     raws = clist(t07.c_raw(r) for r in c["raws"])
-    return f"(({t07.c_tables(c['tables'])}, {t07.C_STRAT[c['input']['strategy']]}, {raws}), {ob})"
+    names = clist(cstr(x) for x in schema_class_names(c["input"]))
+    return f"((({t07.c_tables(c['tables'])}, {t07.C_STRAT[c['input']['strategy']]}, {raws}), {names}), {ob})"
 
 
 def c_lines(ls: list[str]) -> str:
@@ -468,7 +495,7 @@ def shared_tag_case(rng) -> dict:
 
 
 # ---------------------------------------------------------------- entry
-GUARDS = {1: "F13a", 2: "F13b"}   # F01e is fixed
+GUARDS = {1: "F13a", 2: "F13b", 3: "F13c"}   # F01e is fixed
 
 
 def main(chk: Check, replay: dict | None = None) -> int:
@@ -486,11 +513,21 @@ def main(chk: Check, replay: dict | None = None) -> int:
     n = 300 if chk.thorough else 36
     inputs += [gen_case(rng) for _ in range(n)] + [uniform_case(rng) for _ in range(n // 2)]
     inputs += [shared_tag_case(rng) for _ in range(n // 3)]
+    for _ in range(max(2, n // 9)):      # F13c stream: a uniform single-tag case with one AsyncIteratorInfo operation
+        c = uniform_case(rng)
+        if not c["paths"][0]["items"]:
+            continue
+        it = c["paths"][0]["items"][0]
+        it["kind"] = rng.choice(RARE_KINDS)
+        if it["kind"] == "ai_body" and it["method"] in ("get", "delete"):
+            it["method"] = "post" if not any(x["method"] == "post" for x in c["paths"][0]["items"]) else "patch"
+        if len({x["method"] for x in c["paths"][0]["items"]}) == len(c["paths"][0]["items"]):
+            inputs.append(c)
     texts: list[tuple[str, str, str]] = []
     cases = run_pipeline(inputs, chk, texts)
     gcodes = None
     if chk.model_ok:
-        gcodes = chk.coq_eval("From PG Require Import Lib.Strs Model.Tags Model.Surface Corr.C07 Corr.C13.", "input * gobs",
+        gcodes = chk.coq_eval("From PG Require Import Lib.Strs Model.Tags Model.Surface Corr.C07 Corr.C13.", "ginput * gobs",
                               [c_gcase(c) for c in cases], "run_groups", shard=30, tag="groups")
     slim = [{"input": c["input"], "obs": c["obs"], "oracle_fail": c["oracle_fail"]} for c in cases]
     chk.decide(slim, gcodes, GUARDS, "Corr.C13.run_groups: mock files / MockAPIClient / APIClient properties")
